@@ -17,6 +17,7 @@ RULE = ('every signature with 0-4 positional parameters x 0..k trailing defaults
         'passing (+ extra *args / **kwargs where accepted), stacks of <=3 decorators from {try_none, try_zero, try_nan, try_true, try_false, try_list, try_back, kwargs_support, cache, loop(list), pd2np}; '
         'cache histories: random call sequences over a pool of hashable argument combinations; non-trivial = a call passing >=1 argument by keyword through a stack of >=2 decorators, or a cache history '
         'with a repeated combination; distinct = canonical hash of (signature, stack, call) or of the history')
+RULE_ALSO = '; added by the coverage audit and round 8: try_value(repeat=, return_value=) on functions failing their first j calls, cached functions called with tuples / lists holding lists or dicts'
 ASSUMPTIONS = ['no keyword-only parameters (outside the quantifier)', 'cache arguments are hashable scalars without cross-type numeric collisions (1 / 1.0 / True)',
                'loop(list) and pd2np are exercised on scalar (non-container, non-pandas, non-ndarray) arguments', 'try_back raising calls supply the first parameter',
                'raising calls are evaluated through stacks holding exactly one try_* wrapper']
